@@ -13,7 +13,7 @@ META = {
             '(match sets / domain law). C01_subdir (sub-directory request = whole-tree scan restricted) is checked by the stream oracle only, not yet a theorem.',
 }
 THEOREMS = ['Scalibr.Walk.C01_calls', 'Scalibr.Walk.C01_once', 'Scalibr.Walk.C01_only_required', 'Scalibr.Walk.C01_limit_shared',
-            'Scalibr.Walk.C01_inv', 'Scalibr.Walk.C01_inv_spec', 'Scalibr.Walk.C01_matcher_domainLaw',
+            'Scalibr.Walk.C01_inv', 'Scalibr.Walk.C01_inv_spec', 'Scalibr.Walk.C01_matcher_domainLaw', 'Scalibr.Walk.C01_table_matcher_domainLaw',
             'Scalibr.Walk.run_spec', 'Scalibr.Walk.walkNode_spec', 'Scalibr.Walk.mustFlat_nodup', 'Scalibr.Walk.runRoots_pkgs']
 
 
